@@ -63,6 +63,9 @@ class C20(Prop):
         for _ in range(15 if tier == "quick" else 200):
             batch = ["".join(rng.choice(pieces) for _ in range(rng.randint(1, 6))) for _ in range(40)]
             yield {"gen": "keys/random", "kind": "keys", "names": batch}
+        yield {"gen": "keys/serial", "kind": "keys",
+               "names": [p + str(b + d) + sfx for p in ("ctg_", "") for b in (20240131093015000, 2**53, 2**64, 10**30)
+                         for d in (0, 1, 2) for sfx in ("", "_unloc_1")]}
         for _ in range(150 if tier == "quick" else 2500):
             yield self.gen_sort(rng)
         for _ in range(40 if tier == "quick" else 400):
@@ -120,7 +123,7 @@ class C20(Prop):
                 "named": [[k, a.name, [(s.rank, s.name) for s in a.scaffolds]] for k, a in out.items()]}
 
     def gen_sort(self, rng):
-        style = rng.choice(["super", "roman", "mixed", "small"])
+        style = rng.choice(["super", "roman", "mixed", "small", "serial"])
         n = rng.randint(2, 14)
         items = []
         for _ in range(n):
@@ -133,6 +136,11 @@ class C20(Prop):
             elif style == "roman":
                 nm = "chr" + rng.choice(["I", "II", "III", "IV", "V", "X", "VI", "IIII", "IIV"])
                 rank = rng.choice([1, 2])
+            elif style == "serial":
+                # assembler serial numbers / time stamps: numbers beyond 2**53 that differ in the low digits only
+                nm = rng.choice(["ctg_", "read", ""]) + str(rng.choice([20240131093015000, 2**53, 2**64, 10**30])
+                                                            + rng.randint(0, 3)) + rng.choice(["", "", "_unloc_1", "_2"])
+                rank = rng.choice([1, 3])
             elif style == "mixed":
                 nm = rng.choice(["SUPER_", "scaffold_", "H_", "", "chr"]) + rng.choice(
                     ["1", "2", "10", "02", "X", "W1", "I", "IV", "3_unloc_1", "B2", "007", "7"]
